@@ -8,7 +8,7 @@
 (* post-state with the step operators and names every clause that fails.   *)
 (* Verdicts are total: one <<"V", {id, failed, detail}>> line per case.     *)
 (***************************************************************************)
-EXTENDS Criteria, Disparity, Json, IOUtils, TLC
+EXTENDS Criteria, Disparity, Refinement, Json, IOUtils, TLC
 
 Cases == ndJsonDeserialize(IOEnv.TRACE_FILE)
 
@@ -66,7 +66,76 @@ DispVerdict(e) ==
                                    IN <<"pixel", x[1], x[2], e.out.disp[x[1]][x[2]], Wta(e.cv[x[1]][x[2]], e.type, e.first, e.inv)>>
                   ELSE <<>>]
 
+\* ------------------------------------------------------------------ flags through any step (C04) ---
+\* e: kind, method, interp (BOOLEAN: validation with interpolated_disparity), rows, cols, win, inv,
+\*    prevalid (BOOLEAN: no validation step has run yet), before/after: [vm, disp] (before.vm may be absent for
+\*    the first step: then e.first = TRUE)
+OwnBits(e) == CASE e.kind = "matching_cost" -> {0, 1, 2, 6, 7}
+                [] e.kind = "refinement" -> {3}
+                [] e.kind = "validation" -> IF e.interp THEN {8, 9, 4, 5} ELSE {8, 9}
+                [] e.kind = "filter" /\ e.method = "median_for_intervals" -> {11}
+                [] OTHER -> {}
+\* the only bits a step may clear: filling replaces 8 by 4 and 9 by 5 (sgm may turn a mismatch into an occlusion)
+RemovableBits(e) == IF e.kind = "validation" /\ e.interp THEN {8, 9} ELSE {}
+BorderPix(e, r, c) == LET o == (e.win - 1) \div 2 IN r <= o \/ r > e.rows - o \/ c <= o \/ c > e.cols - o
+FlagVerdict(e) ==
+   LET A(x) == e.after.vm[x[1]][x[2]]
+       B(x) == IF e.first THEN 0 ELSE e.before.vm[x[1]][x[2]]
+       wf    == {x \in Pix(e) : ~(WellFormedFlag(A(x)) /\ Bits(A(x)) \subseteq DocumentedBits)}
+       added == {x \in Pix(e) \ wf : ~((Bits(A(x)) \ Bits(B(x))) \subseteq OwnBits(e))}
+       remov == {x \in Pix(e) \ wf : ~BorderPix(e, x[1], x[2]) /\ ~((Bits(B(x)) \ Bits(A(x))) \subseteq RemovableBits(e))}
+       bord  == {x \in Pix(e) \ wf : BorderPix(e, x[1], x[2]) /\ Bits(A(x)) # {0}}
+       coh   == IF e.prevalid /\ e.hasdisp
+                THEN {x \in Pix(e) \ wf : IsInvalidFlag(Bits(A(x))) # (e.after.disp[x[1]][x[2]] = e.inv)}
+                ELSE {}
+       one(S) == IF S = {} THEN <<>> ELSE LET x == CHOOSE y \in S : TRUE IN <<x[1], x[2], B(x), A(x)>>
+   IN [failed |-> (IF wf # {} THEN {"undocumented_bit"} ELSE {})
+                  \cup (IF added # {} THEN {"only_own_bits_added"} ELSE {})
+                  \cup (IF remov # {} THEN {"bit_removed"} ELSE {})
+                  \cup (IF bord # {} THEN {"border_bit0_only"} ELSE {})
+                  \cup (IF coh # {} THEN {"invalid_flag_iff_invalid_disparity"} ELSE {}),
+       detail |-> IF wf # {} THEN one(wf) ELSE IF added # {} THEN one(added) ELSE IF remov # {} THEN one(remov)
+                  ELSE IF bord # {} THEN one(bord) ELSE one(coh)]
+
+\* ------------------------------------------------------------------ refinement (C06) ----------------
+\* disparities and coefficients are rationals <<n, d>> in SAMPLE units (disparity * subpix); <<NaN, 1>> = NaN
+IsNum(q) == q[1] # NaN /\ q[1] # 1000000009
+RefPixelFail(e, x) ==
+   LET bv == Bits(e.before.vm[x[1]][x[2]])   av == Bits(e.after.vm[x[1]][x[2]])
+       D == e.before.disp[x[1]][x[2]]        D2 == e.after.disp[x[1]][x[2]]
+       co == e.after.coef[x[1]][x[2]]        row == e.cv[x[1]][x[2]]
+       last == e.first + Len(row) - 1
+   IN IF bv \cap AllInvalidBits # {}
+      THEN (IF D2 # D THEN {"invalid_untouched"} ELSE {}) \cup (IF av # bv THEN {"invalid_untouched_flags"} ELSE {})
+      ELSE (IF ~((av \ bv) \subseteq {3} /\ bv \subseteq av) THEN {"no_other_bit"} ELSE {})
+           \* generic clauses on milli-sample integers (the received disparity may be any float after a filter):
+           \* delta3 = round(1000 * |after - before| * subpix), after3 = round(1000 * after * subpix); 1 unit of rounding slack
+           \cup (IF e.before.d3[x[1]][x[2]] # NaN /\ ~(e.after.delta3[x[1]][x[2]] # NaN /\ e.after.delta3[x[1]][x[2]] <= 501) THEN {"half_sample_bound"} ELSE {})
+           \cup (IF e.before.d3[x[1]][x[2]] # NaN /\ e.after.d3[x[1]][x[2]] # NaN
+                     /\ ~(1000 * e.first - 1 <= e.after.d3[x[1]][x[2]] /\ e.after.d3[x[1]][x[2]] <= 1000 * last + 1) THEN {"in_interval"} ELSE {})
+           \cup (IF IsNum(D) /\ D[2] = 1 /\ D[1] >= e.first /\ D[1] <= last /\ row[D[1] - e.first + 1] # NaN
+                 THEN LET k == D[1] - e.first + 1
+                          onEnd == (k = 1 \/ k = Len(row))
+                          t == IF onEnd THEN <<NaN, row[k], NaN>> ELSE <<row[k - 1], row[k], row[k + 1]>>
+                      IN IF onEnd \/ Stopped(t, e.type)
+                         THEN (IF ~(D2 = D /\ av = bv \cup {3}) THEN {"stopped_exactly_when"} ELSE {})
+                              \cup (IF ~(IsNum(co) /\ RatEq(co, Int2Rat(row[k]))) THEN {"coefficient"} ELSE {})
+                         ELSE (IF ~(IsNum(D2) /\ D2[2] > 0 /\ RatEq(D2, RatAdd(D, Shift(e.method, t, e.type)))) THEN {"optimum"} ELSE {})
+                              \cup (IF 3 \in (av \ bv) THEN {"stopped_exactly_when"} ELSE {})
+                              \cup (IF ~(IsNum(co) /\ co[2] > 0 /\ RatEq(co, FitCost(e.method, t, e.type))) THEN {"coefficient"} ELSE {})
+                 ELSE {})
+RefVerdict(e) ==
+   LET fails == [x \in Pix(e) |-> RefPixelFail(e, x)]
+       bad == {x \in Pix(e) : fails[x] # {}}
+   IN [failed |-> UNION {fails[x] : x \in Pix(e)},
+       detail |-> IF bad = {} THEN <<>>
+                  ELSE LET x == CHOOSE y \in bad : TRUE
+                       IN <<x[1], x[2], e.cv[x[1]][x[2]], e.before.disp[x[1]][x[2]], e.after.disp[x[1]][x[2]],
+                            e.after.coef[x[1]][x[2]], e.before.vm[x[1]][x[2]], e.after.vm[x[1]][x[2]]>>]
+
 Verdict(e) == CASE e.step = "matching_cost" -> McVerdict(e)
+                [] e.step = "refinement" -> RefVerdict(e)
+                [] e.step = "flags" -> FlagVerdict(e)
                 [] e.step = "disparity" -> DispVerdict(e)
                 [] OTHER -> [failed |-> {"unknown_step"}, detail |-> <<>>]
 
